@@ -159,6 +159,19 @@ def check_serialisation(info, indent, viols, keytag):
     if r["html"] != "<p>before</p>\n<p>after</p>":
         viols.append((f"{keytag}:residue", "text after extraction is not the input minus the script",
                       {"observed": r["html"]}))
+    # history: the dependency is changed after it has been serialised once: a new serialisation
+    # carries the change
+    dep.name = dep.name + "-v2"
+    dep.all_files = not dep.all_files
+    dep.script.append({"src": "late.js"})
+    text2 = dep.serialize_to_script_json(indent=indent).get_html_string()
+    try:
+        r2 = HTMLTextDocument("x" + text2, deps_replace_pattern=PLACEHOLDER).render()
+        if [dep_fields(d) for d in r2["dependencies"]] != [dep_fields(dep)]:
+            viols.append((f"{keytag}:stale-serialisation", "a dependency changed after its first serialisation is "
+                          "serialised with its old state", {"observed": [dep_fields(d) for d in r2["dependencies"]][:1]}))
+    except Exception as e:
+        viols.append((f"{keytag}:extract-raises", f"second extraction raised {type(e).__name__}: {e}", {}))
     return text
 
 
@@ -300,7 +313,7 @@ def plan(tier):
     out = [dict(kind="space", name="single-field", space=singles, fn=fn_single, execs=3,
                 note=f"{len(FIELDS)} fields x {len(HOSTILE)} hostile strings x indent {INDENTS}")]
     nmax = 3
-    docs = []
+    docs = [Prod(Seq(Const(SURROUND + [PLACEHOLDER + "<p>" + PLACEHOLDER]), 1, 1), Const([[]]), Const([None]))]
     for n in range(1, nmax + 1):
         sur = SURROUND if (tier != "quick" or n < 2) else (SURROUND[:5] if n == 2 else SURROUND[2:5])
         docs.append(Prod(Seq(Const(sur), n + 1, n + 1),
